@@ -54,7 +54,8 @@ Check(p, i2, s2) ==
 PowerUp(p) ==
   LET E == Dn(p).adl
       rs == {c \in 1..Len(E.ctxs) : E.ctxs[c].kind = "seq" /\ ~CIsNone(E.ctxs[c].reset)}
-  IN [n \in {E.ctxs[c].reset.port : c \in rs} |->
+      ins == {Dn(p).inputs[i].n : i \in 1..Len(Dn(p).inputs)}        \* (a reference description may use an internal signal as reset)
+  IN [n \in {E.ctxs[c].reset.port : c \in rs} \cap ins |->
         VSl(IF E.ctxs[CHOOSE c \in rs : E.ctxs[c].reset.port = n].reset.active_low = 1 THEN 1 ELSE 0)]
 
 Init ==
